@@ -60,6 +60,19 @@ CMP = {ast.Lt: [ast.LtE, ast.Gt], ast.LtE: [ast.Lt, ast.GtE], ast.Gt: [ast.GtE, 
 BIN = {ast.Add: [ast.Sub], ast.Sub: [ast.Add], ast.Mult: [ast.FloorDiv], ast.Div: [ast.Mult], ast.FloorDiv: [ast.Mult]}
 
 
+SWAP_NAMES = {"u": "v", "v": "u", "a": "b", "b": "a", "start": "end", "end": "start", "t_from": "t_to",
+              "t_to": "t_from", "f_from": "i_to", "i_to": "f_from", "n": "nbr", "nbr": "n", "s": "t", "e": "t"}
+SWAP_ATTRS = {"_succ": "_pred", "_pred": "_succ", "time_to_edge": "snapshots", "successors": "predecessors",
+              "predecessors": "successors", "in_degree": "out_degree", "out_degree": "in_degree",
+              "out_interactions": "in_interactions", "in_interactions": "out_interactions",
+              "out_interactions_iter": "in_interactions_iter", "in_interactions_iter": "out_interactions_iter",
+              "append": "extend", "keys": "values"}
+SWAP_STRS = {"+": "-", "-": "+", "t": "T", "shortest": "fastest", "fastest": "shortest", "foremost": "fastest",
+             "source": "target", "target": "source", "_": "-"}
+SWAP_CALLS = {"min": "max", "max": "min", "sorted": "list", "list": "sorted", "len": "id", "int": "float",
+              "any": "all", "all": "any", "set": "list"}
+
+
 class Site:
     def __init__(self, kind, line, desc, apply):
         self.kind, self.line, self.desc, self.apply = kind, line, desc, apply
@@ -71,7 +84,7 @@ def is_docstring(node, parent):
 
 def sites_of(tree):
     """enumerate mutation sites as (path to node, mutation) pairs; `apply(root)` mutates a deep copy"""
-    out = []
+    out, out2 = [], []       # first and second family (the second is appended: ids of the first stay stable)
     nodes = list(ast.walk(tree))
     index = {id(n): i for i, n in enumerate(nodes)}
 
@@ -145,6 +158,31 @@ def sites_of(tree):
                                 if y is x:
                                     v[j] = ast.copy_location(new(), x)
             out.append(Site("loopctl", ln, "%s->%s" % (type(n).__name__, new.__name__), ap))
+        # ---- second family: the wrong name, the wrong table, the wrong sign
+        if isinstance(n, ast.Name) and isinstance(n.ctx, ast.Load) and n.id in SWAP_NAMES:
+            def ap(root, i=i, new=SWAP_NAMES[n.id]):
+                at(root, i).id = new
+            out2.append(Site("name", ln, "%s->%s" % (n.id, SWAP_NAMES[n.id]), ap))
+        elif isinstance(n, ast.Attribute) and n.attr in SWAP_ATTRS:
+            def ap(root, i=i, new=SWAP_ATTRS[n.attr]):
+                at(root, i).attr = new
+            out2.append(Site("attr", ln, "%s->%s" % (n.attr, SWAP_ATTRS[n.attr]), ap))
+        elif isinstance(n, ast.Constant) and isinstance(n.value, str) and n.value in SWAP_STRS:
+            def ap(root, i=i, new=SWAP_STRS[n.value]):
+                at(root, i).value = new
+            out2.append(Site("str", ln, "%r->%r" % (n.value, SWAP_STRS[n.value]), ap))
+        elif isinstance(n, ast.Call) and isinstance(n.func, ast.Name) and n.func.id in SWAP_CALLS:
+            def ap(root, i=i, new=SWAP_CALLS[n.func.id]):
+                at(root, i).func.id = new
+            out2.append(Site("call", ln, "%s->%s" % (n.func.id, SWAP_CALLS[n.func.id]), ap))
+        if isinstance(n, ast.Call) and len(n.args) >= 2 and not n.keywords and \
+                all(isinstance(x, (ast.Name, ast.Subscript, ast.Constant, ast.BinOp)) for x in n.args[:2]) and \
+                ast.dump(n.args[0]) != ast.dump(n.args[1]):
+            # the first two positional arguments exchanged (add_interaction(u, v, ..) -> (v, u, ..), range(a, b), ..)
+            def ap(root, i=i):
+                x = at(root, i)
+                x.args[0], x.args[1] = x.args[1], x.args[0]
+            out2.append(Site("argswap", ln, "args 0<->1 of %s" % ast.unparse(n.func)[:30], ap))
         if isinstance(n, (ast.If, ast.While)) or isinstance(n, ast.IfExp):
             for val in (True, False):
                 if isinstance(n, ast.While) and val:
@@ -174,7 +212,7 @@ def sites_of(tree):
                     b[j] = ast.copy_location(ast.Pass(), b[j])
                 out.append(Site("delete", st.lineno, "statement deleted: %s" % ast.unparse(st)[:50].replace("\n", " "),
                                 ap))
-    return out
+    return out + out2
 
 
 def mutants_of(relfile, repo=mutants.REPO):
